@@ -80,6 +80,8 @@ class Z3Backend:
     def pfalse(self, p): return self.V.pfalse(p)
     def pand(self, p, q, r): return self.V.is_and(r, p, q)  # r denotes p AND q
     def tcat(self, a, b, c): return self.V.is_tcat(c, a, b)  # c = sort-term list "b's terms first, then a's not already present"
+    def pequiv(self, p, q): return self.V.pequiv(p, q)
+    def tlen(self, ts): return self.V.SeqRef.info.len(ts)
     # ints / optints
     def i(self, n): return z3.IntVal(n)
     def add(self, a, b): return a + b
@@ -117,7 +119,10 @@ class Z3Backend:
         pats = []
         if l.trigger is not None:
             t = l.trigger(self, *vs)
-            pats = list(t) if isinstance(t, (list, tuple)) else [t]
+            if isinstance(t, tuple):  # all terms must match together
+                pats = [z3.MultiPattern(*t)]
+            else:  # alternatives
+                pats = list(t) if isinstance(t, list) else [t]
         return z3.ForAll(vs, body, patterns=pats) if pats else z3.ForAll(vs, body)
 
 
@@ -148,7 +153,7 @@ def _(B):
     return B.and_(B.eq(B.rlen(B.unit()), B.i(1)), B.eq(B.rcols(B.unit()), B.eset()))
 
 
-@law("unit-unique", "L", "X:RS", lambda B, X: [B.rlen(X), B.rcols(X)])
+@law("unit-unique", "L", "X:RS", lambda B, X: (B.rlen(X), B.rcols(X)))
 def _(B, X):
     return B.implies(B.and_(B.eq(B.rlen(X), B.i(1)), B.eq(B.rcols(X), B.eset())), B.eq(X, B.unit()))
 
@@ -239,3 +244,143 @@ def _(B, p, K, X, Y):
 @law("join-empty", "L", "p:Pred K:TagSet X:RS Y:RS", lambda B, p, K, X, Y: B.join(p, K, X, Y))
 def _(B, p, K, X, Y):
     return B.implies(B.or_(B.eq(B.rlen(X), B.i(0)), B.eq(B.rlen(Y), B.i(0))), B.eq(B.rlen(B.join(p, K, X, Y)), B.i(0)))
+
+
+# ---- tier T1: algebra of the operators (core List lemmas)
+@law("slice-identity", "T1", "a:Int b:OptInt X:RS", lambda B, a, b, X: B.slice(a, b, X))
+def _(B, a, b, X):
+    return B.implies(B.and_(B.eq(a, B.i(0)), B.is_none(b)), B.eq(B.slice(a, b, X), X))
+
+
+def win_equiv(B, a1, b1, a2, b2, A, Bv):
+    """The index window of slice (A,Bv) equals that of slice (a2,b2) applied after slice (a1,b1)."""
+    S = B.add(a1, a2)
+    e_none = B.and_(B.is_none(b1), B.is_none(b2))
+    E = B.ite(B.is_none(b1), B.add(a1, B.val(b2)), B.ite(B.is_none(b2), B.val(b1), B.min(B.val(b1), B.add(a1, B.val(b2)))))
+    comp_empty = B.and_(B.not_(e_none), B.le(E, S))
+    res_empty = B.and_(B.not_(B.is_none(Bv)), B.le(B.val(Bv), A))
+    same = B.and_(B.eq(A, S), B.ite(e_none, B.is_none(Bv), B.and_(B.not_(B.is_none(Bv)), B.eq(B.val(Bv), E))))
+    return B.or_(B.and_(comp_empty, res_empty), B.and_(B.not_(comp_empty), same))
+
+
+def wf(B, a, b):
+    return B.and_(B.le(B.i(0), a), B.or_(B.is_none(b), B.le(a, B.val(b))))
+
+
+@law("slice-slice", "T1", "a1:Int b1:OptInt a2:Int b2:OptInt A:Int Bv:OptInt X:RS",
+     lambda B, a1, b1, a2, b2, A, Bv, X: (B.slice(a2, b2, B.slice(a1, b1, X)), B.slice(A, Bv, X)))
+def _(B, a1, b1, a2, b2, A, Bv, X):
+    return B.implies(B.and_(wf(B, a1, b1), wf(B, a2, b2), wf(B, A, Bv), win_equiv(B, a1, b1, a2, b2, A, Bv)),
+                     B.eq(B.slice(a2, b2, B.slice(a1, b1, X)), B.slice(A, Bv, X)))
+
+
+@law("sort-empty", "T1", "ts:Terms X:RS", lambda B, ts, X: B.sort(ts, X))
+def _(B, ts, X):
+    return B.implies(B.eq(B.tlen(ts), B.i(0)), B.eq(B.sort(ts, X), X))
+
+
+@law("sort-sort", "T2", "a:Terms b:Terms c:Terms X:RS", lambda B, a, b, c, X: (B.sort(b, B.sort(a, X)), B.sort(c, X)))
+def _(B, a, b, c, X):
+    return B.implies(B.tcat(a, b, c), B.eq(B.sort(b, B.sort(a, X)), B.sort(c, X)))
+
+
+@law("filter-filter", "T1", "p:Pred q:Pred r:Pred X:RS", lambda B, p, q, r, X: (B.filter(q, B.filter(p, X)), B.filter(r, X)))
+def _(B, p, q, r, X):
+    return B.implies(B.pand(p, q, r), B.eq(B.filter(q, B.filter(p, X)), B.filter(r, X)))
+
+
+@law("filter-ext", "T1", "p:Pred q:Pred X:RS", lambda B, p, q, X: (B.filter(p, X), B.filter(q, X)))
+def _(B, p, q, X):
+    return B.implies(B.pequiv(p, q), B.eq(B.filter(p, X), B.filter(q, X)))
+
+
+@law("proj-proj", "T1", "P:TagSet Q:TagSet X:RS", lambda B, P, Q, X: B.proj(P, B.proj(Q, X)))
+def _(B, P, Q, X):
+    return B.implies(B.subset(P, Q), B.eq(B.proj(P, B.proj(Q, X)), B.proj(P, X)))
+
+
+@law("proj-calc-drop", "T1", "P:TagSet t:Tag e:Expr X:RS", lambda B, P, t, e, X: B.proj(P, B.calc(t, e, X)))
+def _(B, P, t, e, X):
+    return B.implies(B.not_(B.member(t, P)), B.eq(B.proj(P, B.calc(t, e, X)), B.proj(P, X)))
+
+
+@law("proj-full", "T1", "P:TagSet X:RS", lambda B, P, X: B.proj(P, X))
+def _(B, P, X):
+    return B.implies(B.eq(P, B.rcols(X)), B.eq(B.proj(P, X), X))
+
+
+@law("calc-calc", "T1", "t1:Tag e1:Expr t2:Tag e2:Expr X:RS", lambda B, t1, e1, t2, e2, X: B.calc(t2, e2, B.calc(t1, e1, X)))
+def _(B, t1, e1, t2, e2, X):
+    return B.implies(B.and_(B.not_(B.eq(t1, t2)), B.not_(B.member(t1, B.fv(e2))), B.not_(B.member(t2, B.fv(e1)))),
+                     B.eq(B.calc(t2, e2, B.calc(t1, e1, X)), B.calc(t1, e1, B.calc(t2, e2, X))))
+
+
+@law("calc-proj", "T1", "t:Tag e:Expr P:TagSet X:RS", lambda B, t, e, P, X: [B.calc(t, e, B.proj(P, X)), B.proj(B.sadd(P, t), B.calc(t, e, X))])
+def _(B, t, e, P, X):
+    return B.implies(B.subset(B.fv(e), P), B.eq(B.proj(B.sadd(P, t), B.calc(t, e, X)), B.calc(t, e, B.proj(P, X))))
+
+
+@law("calc-dedup", "T2", "t:Tag e:Expr X:RS", lambda B, t, e, X: [B.dedup(B.calc(t, e, X)), B.calc(t, e, B.dedup(X))])
+def _(B, t, e, X):
+    return B.implies(B.and_(B.not_(B.member(t, B.rcols(X))), B.subset(B.fv(e), B.rcols(X))),
+                     B.eq(B.dedup(B.calc(t, e, X)), B.calc(t, e, B.dedup(X))))
+
+
+@law("calc-filter", "T1", "t:Tag e:Expr p:Pred X:RS", lambda B, t, e, p, X: [B.filter(p, B.calc(t, e, X)), B.calc(t, e, B.filter(p, X))])
+def _(B, t, e, p, X):
+    return B.implies(B.not_(B.member(t, B.fv(p))), B.eq(B.filter(p, B.calc(t, e, X)), B.calc(t, e, B.filter(p, X))))
+
+
+@law("calc-slice", "T1", "t:Tag e:Expr a:Int b:OptInt X:RS", lambda B, t, e, a, b, X: [B.slice(a, b, B.calc(t, e, X)), B.calc(t, e, B.slice(a, b, X))])
+def _(B, t, e, a, b, X):
+    return B.implies(wf(B, a, b), B.eq(B.slice(a, b, B.calc(t, e, X)), B.calc(t, e, B.slice(a, b, X))))
+
+
+@law("calc-sort", "T2", "t:Tag e:Expr ts:Terms X:RS", lambda B, t, e, ts, X: [B.sort(ts, B.calc(t, e, X)), B.calc(t, e, B.sort(ts, X))])
+def _(B, t, e, ts, X):
+    return B.implies(B.not_(B.member(t, B.fvts(ts))), B.eq(B.sort(ts, B.calc(t, e, X)), B.calc(t, e, B.sort(ts, X))))
+
+
+@law("dedup-dedup", "T2", "X:RS", lambda B, X: B.dedup(B.dedup(X)))
+def _(B, X):
+    return B.eq(B.dedup(B.dedup(X)), B.dedup(X))
+
+
+@law("dedup-filter", "T2", "p:Pred X:RS", lambda B, p, X: [B.dedup(B.filter(p, X)), B.filter(p, B.dedup(X))])
+def _(B, p, X):
+    return B.implies(B.subset(B.fv(p), B.rcols(X)), B.eq(B.dedup(B.filter(p, X)), B.filter(p, B.dedup(X))))
+
+
+@law("dedup-sort", "T3", "ts:Terms X:RS", lambda B, ts, X: [B.dedup(B.sort(ts, X)), B.sort(ts, B.dedup(X))])
+def _(B, ts, X):
+    return B.implies(B.subset(B.fvts(ts), B.rcols(X)), B.eq(B.dedup(B.sort(ts, X)), B.sort(ts, B.dedup(X))))
+
+
+@law("proj-filter", "T1", "P:TagSet p:Pred X:RS", lambda B, P, p, X: [B.proj(P, B.filter(p, X)), B.filter(p, B.proj(P, X))])
+def _(B, P, p, X):
+    return B.implies(B.subset(B.fv(p), P), B.eq(B.proj(P, B.filter(p, X)), B.filter(p, B.proj(P, X))))
+
+
+@law("proj-slice", "T1", "P:TagSet a:Int b:OptInt X:RS", lambda B, P, a, b, X: [B.proj(P, B.slice(a, b, X)), B.slice(a, b, B.proj(P, X))])
+def _(B, P, a, b, X):
+    return B.implies(wf(B, a, b), B.eq(B.proj(P, B.slice(a, b, X)), B.slice(a, b, B.proj(P, X))))
+
+
+@law("proj-sort", "T2", "P:TagSet ts:Terms X:RS", lambda B, P, ts, X: [B.proj(P, B.sort(ts, X)), B.sort(ts, B.proj(P, X))])
+def _(B, P, ts, X):
+    return B.implies(B.subset(B.fvts(ts), P), B.eq(B.proj(P, B.sort(ts, X)), B.sort(ts, B.proj(P, X))))
+
+
+@law("filter-commute", "T1", "p:Pred q:Pred X:RS", lambda B, p, q, X: B.filter(q, B.filter(p, X)))
+def _(B, p, q, X):
+    return B.eq(B.filter(q, B.filter(p, X)), B.filter(p, B.filter(q, X)))
+
+
+@law("filter-sort", "T2", "p:Pred ts:Terms X:RS", lambda B, p, ts, X: [B.filter(p, B.sort(ts, X)), B.sort(ts, B.filter(p, X))])
+def _(B, p, ts, X):
+    return B.eq(B.filter(p, B.sort(ts, X)), B.sort(ts, B.filter(p, X)))
+
+
+@law("tcat-fvts", "T1", "a:Terms b:Terms c:Terms", lambda B, a, b, c: B.tcat(a, b, c))
+def _(B, a, b, c):
+    return B.implies(B.tcat(a, b, c), B.eq(B.fvts(c), B.union(B.fvts(a), B.fvts(b))))
